@@ -9,6 +9,10 @@ def run(ctx: Ctx) -> None:
     ctx.floor("T4.bch", 7)
     ctx.floor("T4.compose", 4)
     ctx.floor("T4.logv-convention", 4)
+    from ..tables import t11_expv
+    with ctx.only("T11x.expv"):  # logv iterates on expv(v, steps=exp_steps, inverse=True): every steps / scale / inverse combination (shared with C11)
+        t11_expv.run_expv(ctx)
+    ctx.floor("T11x.expv", 50)
 
 
 def mutants(prog):
